@@ -231,6 +231,23 @@ def make_spec(rng, gen, kind, how=None, npk=None, ascii_only=True, special=None)
         long = b"X" * rng.choice([65, 66, 100, 200]) + b"\r\n"
         pkts.insert(rng.randrange(len(pkts) + 1), long)
         spec["settle"] = 50.0
+    if special == "longline" and kind == "actisense":
+        # a valid line far longer than the usual ones: a 134-byte fast-packet payload (product information), ~290 characters
+        body = (2100).to_bytes(2, "little") + (1234).to_bytes(2, "little") + b"Model ABC".ljust(32) + b"SW 1.2.3".ljust(32) + \
+            b"HW rev 4".ljust(32) + b"SN 000123456".ljust(32) + bytes([1, 2])
+        long = ("A000124.000 01FF6 1F014 " + body.hex().upper() + "\r\n").encode()
+        pkts.insert(rng.randrange(len(pkts) + 1), long)
+    if special == "aa55" and kind == "waveshare":
+        # a packet whose LAST byte (the checksum) is 0xAA ends a read; a stray 0x55 follows; then more packets
+        k = rng.randrange(len(pkts))
+        q = bytearray(pkts[k])
+        q[18] = (q[18] + (0xAA - sum(q[2:19])) % 256) % 256
+        q[19] = sum(q[2:19]) & 0xFF
+        if q[19] == 0xAA:
+            pkts[k] = bytes(q)
+            pkts.insert(k + 1, rng.choice([b"\x55", b"\x55\x00", b"\x55\x55"]))
+            how = "crlf"                                      # binary formats: cut exactly at every segment boundary
+            spec["how"] = how
     if special == "tail":
         pkts.append(pkts[0][: max(1, len(pkts[0]) // 2)])      # an unterminated tail stays in the reader
     if special == "eof" and kind == "ebyte":
@@ -328,7 +345,7 @@ def oracle(spec, res):
     f = res["final"]
     if not f["queue_empty"]:
         return "stalled", "messages left in the queue although the session had settled"
-    if sp in (None, "tail") and (f["state"] != "CONNECTED" or f["nopen"] != 1):
+    if sp in (None, "tail", "longline", "aa55") and (f["state"] != "CONNECTED" or f["nopen"] != 1):
         return "spurious-disconnect", f"state {f['state']} after {f['nopen']} connection(s) although the link never failed"
     if sp == "banner" and BANNER in ref_frame(kind, data) and f["nopen"] < 2:
         return "banner-ignored", "the Sorry,Limited banner did not lead to a reconnect"
@@ -519,6 +536,8 @@ def correspond(ctx):
         specs.append(make_spec(rng, gen, "ebyte", special="eof"))
         specs.append(make_spec(rng, gen, "ebyte", special="banner"))
         specs.append(make_spec(rng, gen, rng.choice(["actisense", "yd"]), special="limit"))
+        specs.append(make_spec(rng, gen, "actisense", special="longline"))
+        specs.append(make_spec(rng, gen, "waveshare", special="aa55"))
     judged = run_and_judge(specs)
     ctx._c12_judged = judged
     cases_rx, meta_rx, cases_q, meta_q = [], [], [], []
